@@ -40,4 +40,7 @@ def check(model, tier):
     structure.r06_1_flags(ctx, rule="R14.8")
     run.assume("every SQL-engine relation handed to the engine is a Select (R17.2, checked under C17)")
     run.assume("Transfer.simplify finds nothing to simplify on the own-engine no-op path (otherwise the call is not a no-op)")
+    from ..rules.foundation import run_foundation
+
+    run_foundation(ctx, "14")
     return run
